@@ -11,7 +11,7 @@ from .c03 import game_constants, chain_tree, wide_tree
 
 SCOPE = {"solve", "named", "info"}
 REL = 1e-7
-N_QUICK = 40
+N_QUICK = 44
 N_THOROUGH = 600
 HARNESS_JOBS = 8
 RULE = ("a broad collection of random and adversarial perfect-recall games x methods {Sampled, External} x the five presets x "
@@ -41,6 +41,25 @@ def generate(rng, tier, n):
         cb.meta["scope"] = set()
         cb.meta["sweep"] = {"trees": trees, "method": m_, "iters": 4000, "threads": 1, "params": "dcfr"}
         cb.meta["sweep_k"] = k
+        cases.append(cb)
+        cid += 1
+    # two anonymous, identically distributed coins on one path (they are different chance infosets: independent draws),
+    # and games in which only one player ever has a choice -- solved with the production samplers
+    from ..solvers import two_coins_tree, lone_chooser_tree
+    for t, st, m_ in ((two_coins_tree(rng) + ("sampled",)), (two_coins_tree(rng) + ("external",)),
+                      (lone_chooser_tree(rng, 1) + ("external",)), (lone_chooser_tree(rng, 2) + ("external",))):
+        pre = rng.choice(PRESETS)
+        th = rng.choice([1, 2])
+        cb = CaseBuilder(cid, t, {"stats": st, "method": m_, "preset": pre, "threads": th, "live": True, "stat_runs": []})
+        for T in (1000, 4000):
+            s = cb.solve(m_, T, 0.0, th, pre, None, kind="solve_long")
+            cb.info(s, kind="info_long")
+            cb.meta["stat_runs"].append((T, len(cb.ops) - 2))
+        draws = draws_for(rng, t, st, n=211)
+        for T in (1, 5, 30):
+            s = cb.solve(m_, T, 0.0, th, pre, draws)
+            cb.named(s)
+            cb.info(s)
         cases.append(cb)
         cid += 1
     while len(cases) < n:
